@@ -128,16 +128,29 @@ func partAESModel(r *vh.Run) {
 					panic(err)
 				}
 				ctx.E.P, ctx.E.Emd = int(p), emd
-				if err := guard(func() error { return pdfcpu.VerifC24CalcOAndU(ctx, d) }); err != nil {
-					r.OracleFail("error:calcOAndU", map[string]any{"R": rev, "upw": hx([]byte(upw.raw))}, err.Error())
-					continue
-				}
+				upp, uperr := pdfcpu.VerifC24ProcessInput(upw.raw)
+				opp, operr := pdfcpu.VerifC24ProcessInput(opw.raw)
+				cerr := guard(func() error { return pdfcpu.VerifC24CalcOAndU(ctx, d) })
 				e, fk := ctx.E, append([]byte{}, ctx.EncKey...)
-				ru, ro := e.U[32:48], e.O[32:48]
+				ru, ro := make([]byte, 16), make([]byte, 16)
+				if len(e.U) == 48 {
+					ru = e.U[32:48]
+				}
+				if len(e.O) == 48 {
+					ro = e.O[32:48]
+				}
+				if len(fk) != 32 {
+					fk = make([]byte, 32)
+				}
 				var sres string
 				tp := withTape(func() {
-					u1, _ := iAlg8(rev, []byte(upw.raw), ru[:8], ru[8:], fk)
-					iAlg9(rev, []byte(opw.raw), ro[:8], ro[8:], u1, fk)
+					// what the code model asks for: the passwords as pdfcpu prepares them
+					if uperr == nil {
+						u1, _ := iAlg8(rev, trunc127(upp), ru[:8], ru[8:], fk)
+						if operr == nil {
+							iAlg9(rev, trunc127(opp), ro[:8], ro[8:], u1, fk)
+						}
+					}
 					if upw.ok && opw.ok {
 						su, sue := iAlg8(rev, upw.prepared, ru[:8], ru[8:], fk)
 						so, soe := iAlg9(rev, opw.prepared, ro[:8], ro[8:], su, fk)
@@ -146,10 +159,16 @@ func partAESModel(r *vh.Run) {
 						sres = "none"
 					}
 				})
-				r.Case("aes_calc", []string{tp, R, hx([]byte(upw.raw)), hx([]byte(opw.raw)), hx(ru), hx(ro), hx(fk)},
-					hx(e.U)+"|"+hx(e.O)+"|"+hx(e.UE)+"|"+hx(e.OE))
+				cres := "none"
+				if cerr == nil {
+					cres = hx(e.U) + "|" + hx(e.O) + "|" + hx(e.UE) + "|" + hx(e.OE)
+				}
+				r.Case("aes_calc", []string{tp, R, hx([]byte(upw.raw)), optHex(upp, uperr == nil), hx([]byte(opw.raw)), optHex(opp, operr == nil), hx(ru), hx(ro), hx(fk)}, cres)
 				r.Case("s_alg89", []string{tp, R, hx([]byte(upw.raw)), optHex([]byte(upw.sasl), upw.ok), hx([]byte(opw.raw)), optHex([]byte(opw.sasl), opw.ok),
 					hx(ru[:8]), hx(ru[8:]), hx(ro[:8]), hx(ro[8:]), hx(fk)}, sres)
+				if cerr != nil {
+					continue
+				}
 
 				// Perms
 				P, EM := vh.Int(p), vh.Bool(emd)
